@@ -11,6 +11,7 @@ import (
 	"errors"
 	"fmt"
 	"io"
+	"math"
 
 	"github.com/rpcpool/yellowstone-faithful/indexmeta"
 )
@@ -43,6 +44,9 @@ func Open(stream io.ReaderAt) (*DB, error) {
 		return nil, ErrInvalidMagic
 	}
 	size := binary.LittleEndian.Uint32(magicAndSize[8:])
+	if size < minHeaderLen || size > maxHeaderLen {
+		return nil, fmt.Errorf("invalid header length: %d", size)
+	}
 	fileHeaderBuf := make([]byte, 8+4+size)
 	n, readErr = stream.ReadAt(fileHeaderBuf, 0)
 	if n < len(fileHeaderBuf) {
@@ -104,6 +108,10 @@ func (db *DB) GetBucket(i uint) (*Bucket, error) {
 	if i >= uint(db.Header.NumBuckets) {
 		return nil, fmt.Errorf("out of bounds bucket index: %d >= %d", i, db.Header.NumBuckets)
 	}
+	if db.Header.ValueSize > math.MaxUint8-HashSize {
+		// The entry stride (hash + value) is stored in a uint8.
+		return nil, fmt.Errorf("unsupported value size: %d", db.Header.ValueSize)
+	}
 
 	// Fill bucket handle.
 	bucket := &Bucket{
@@ -117,6 +125,10 @@ func (db *DB) GetBucket(i uint) (*Bucket, error) {
 	readErr := bucket.BucketHeader.readFrom(db.Stream, i)
 	if readErr != nil {
 		return nil, readErr
+	}
+	if bucket.HashLen > HashSize {
+		// An entry is HashSize bytes of hash followed by the value.
+		return nil, fmt.Errorf("invalid bucket header: hash length %d", bucket.HashLen)
 	}
 	bucket.Entries = io.NewSectionReader(db.Stream, int64(bucket.FileOffset), int64(bucket.NumEntries)*int64(bucket.Stride))
 	if db.prefetch {
@@ -188,9 +200,13 @@ func (b *Bucket) Load(batchSize int) ([]Entry, error) {
 	if b.NumEntries > maxEntriesPerBucket {
 		return nil, fmt.Errorf("refusing to load bucket with %d entries", b.NumEntries)
 	}
-	entries := make([]Entry, 0, b.NumEntries)
-
 	stride := int(b.Stride)
+	if stride == 0 {
+		return nil, fmt.Errorf("invalid entry stride")
+	}
+	// NumEntries comes from the file: do not allocate for more entries than one batch before they were read.
+	entries := make([]Entry, 0, minInt64(int64(b.NumEntries), int64(batchSize)))
+
 	buf := make([]byte, batchSize*stride)
 	off := int64(0)
 	for {
